@@ -37,6 +37,9 @@ def assign(name, x): return {"k": "assign", "name": name, "x": x}
 def mark(x): return {"k": "mark", "x": x}
 
 
+NSNAME = {"mission": "missionNamespace", "ui": "uiNamespace", "parsing": "parsingNamespace", "profile": "profileNamespace"}
+
+
 # ---------------------------------------------------------------- rendering
 def r_expr(e):
     k = e["k"]
@@ -86,6 +89,14 @@ def r_expr(e):
         return "(try %s catch %s)" % (r_block(e["body"]), r_block(e["handler"]))
     if k == "isnilc":
         return "(isNil %s)" % r_block(e["body"])
+    if k == "getvar":
+        return '(%s getVariable "%s")' % (NSNAME[e["ns"]], e["name"])
+    if k == "isnils":
+        return '(isNil "%s")' % e["name"]
+    if k == "allvars":
+        return "(count (allVariables %s))" % NSNAME[e["ns"]]
+    if k == "within":
+        return "(with %s do %s)" % (NSNAME[e["ns"]], r_block(e["body"]))
     if k == "raw":
         return e["text"]
     raise ValueError("expr " + k)
@@ -128,6 +139,10 @@ def r_stmt(s):
         return "case %s" % r_expr(s["x"])
     if k == "default":
         return "default %s" % r_block(s["body"])
+    if k == "setvar":
+        return '%s setVariable ["%s", %s]' % (NSNAME[s["ns"]], s["name"], r_expr(s["x"]))
+    if k == "spawn":
+        return "[] spawn %s" % r_block(s["body"])
     if k == "raw":
         return s["text"]
     raise ValueError("stmt " + k)
@@ -158,6 +173,8 @@ class Gen:
         self.scope_no = 0
         self.numvars = ["gA", "gB"]
         self.scopes = []
+        self.btypes = ["any"]  # result types of the enclosing blocks (an exitWith body yields the enclosing block's type)
+        self.no_exit = 0      # > 0 while generating the body of count/select/apply/findIf: an early exit would change the construct's result type
 
     def ok(self, name):
         return not self.allow or name in self.allow
@@ -244,8 +261,8 @@ class Gen:
             if r.random() < 0.25:
                 body.append({"k": "case", "x": num(r.randint(0, 3))})  # fall-through label
             body.append({"k": "case", "x": num(r.randint(0, 3)), "body": self.block(d, "num")})
-        if r.random() < 0.6:
-            body.insert(r.randint(0, len(body)), {"k": "default", "body": self.block(d, "num")})
+        # used as a number: there always is a selected block (a switch that selects nothing yields nil)
+        body.insert(r.randint(0, len(body)), {"k": "default", "body": self.block(d, "num")})
         return body
 
     # ---- statements
@@ -258,6 +275,8 @@ class Gen:
         k = self.pick(["mark", "assign", "expr", "expr", "exprarr", "if", "exitwith", "while", "for", "foreach", "scoped", "private", "junk"])
         if d <= 0 and k in ("if", "exitwith", "while", "for", "foreach", "scoped"):
             k = "assign"
+        if self.no_exit and k == "exitwith":
+            k = "mark"
         if k == "mark":
             return [self.new_mark()]
         if k == "assign":
@@ -274,7 +293,7 @@ class Gen:
         if k == "if":
             return [st_expr({"k": "if", "c": self.e_bool(d - 1), "th": self.block(d - 1, "any"), "el": self.block(d - 1, "any") if r.random() < 0.5 else None})]
         if k == "exitwith":
-            return [{"k": "exitwith", "c": self.e_bool(d - 1), "body": self.block(d - 1, "num")}]
+            return [{"k": "exitwith", "c": self.e_bool(d - 1), "body": self.block(d - 1, "bool" if self.btypes[-1] == "bool" else "num")}]
         if k == "while":
             # terminating loop over a dedicated counter
             self.scope_no += 1
@@ -310,8 +329,15 @@ class Gen:
         """result: num | bool | numx (uses _x) | boolx | any"""
         r = self.rng
         out = []
+        guard = result in ("numx", "boolx")
+        if guard:
+            self.no_exit += 1
+        self.btypes.append(result)
         for _ in range(r.randint(0, 2)):
             out += self.stmt(d)
+        self.btypes.pop()
+        if guard:
+            self.no_exit -= 1
         if extra:
             out += extra
         if result == "num":
